@@ -233,77 +233,50 @@ Boolean Double_2_ieee2(Double inp, Byte* pDest, Boolean NeedsBig) {
             Mantissa, Exponent, Fraction);
 #endif
 
-    /* (2) Round-to-the-nearest for FP16: */
+    /* (2) Round-to-the-nearest-even for FP16: the upper 11 bits of the 29 bit mantissa
+       (including the leading one) make it into a normal result, i.e. 18 bits are dropped.
+       A result below 2^(-14) is a FP16 denormal and drops one more bit per binary order of
+       magnitude - rounding must happen once, at that position: */
 
-    /* Bits 27..18 of fractional part of mantissa will make it into dest, so the decision
-     * bit is bit 17: */
-
-    if (Mantissa & 0x20000ul) /* fraction is >= 0.5 */
     {
-        if ((Mantissa & 0x1fffful) || Fraction) { /* fraction is > 0.5 -> round up */
-            RoundUp = True;
-        } else { /* fraction is 0.5 -> round towards even, i.e. round up if mantissa is
-                    odd */
-            RoundUp = !!(Mantissa & 0x40000ul);
+        unsigned Drop = 18;
+        LongWord Kept, Rest, Half;
+
+        if (Exponent < -14) {
+            Drop += (unsigned)(-14 - Exponent);
+            if (Drop > 30) {
+                Drop = 30;
+            }
         }
-    } else { /* fraction is < 0.5 -> round down */
-        RoundUp = False;
-    }
+        Kept = Mantissa >> Drop;
+        Rest = Mantissa & ((1ul << Drop) - 1);
+        Half = 1ul << (Drop - 1);
+        RoundUp = (Rest > Half) || ((Rest == Half) && (Fraction || (Kept & 1)));
 #if DBG_FLOAT
-    fprintf(stderr, "RoundUp %u\n", RoundUp);
+        fprintf(stderr, "Drop %u Kept 0x%x RoundUp %u\n", Drop, (unsigned)Kept, RoundUp);
 #endif
-    if (RoundUp) {
-        Mantissa += 0x40000ul - (Mantissa & 0x3fffful);
-        Fraction = 0;
-        if (Mantissa & 0x20000000ul) {
-            Mantissa >>= 1;
-            Exponent++;
-        }
-    }
-#if DBG_FLOAT
-    fprintf(stderr, "(round) %2d * 0x%08x * 2^%d Fraction 0x%08x\n", Sign ? -1 : 1,
-            Mantissa, Exponent, Fraction);
-#endif
-
-    /* (3a) Overrange? */
-
-    if (Exponent > 15) {
-        return False;
-    } else {
-        /* (3b) number that is too small may degenerate to 0: */
-
-        while ((Exponent < -15) && Mantissa) {
-            Exponent++;
-            Mantissa >>= 1;
-        }
-#if DBG_FLOAT
-        fprintf(stderr, "(after denormchk) %2d * 0x%08x * 2^%d Fraction 0x%08x\n",
-                Sign ? -1 : 1, Mantissa, Exponent, Fraction);
-#endif
-
-        /* numbers too small to represent degenerate to 0 (mantissa was shifted out) */
-
-        if (Exponent < -15) {
-            Exponent = -15;
+        if (RoundUp) {
+            Kept++;
         }
 
-        /* For denormal numbers, exponent is 2^(-14) and not 2^(-15)!
-           So if we end up with an exponent of 2^(-15), convert
-           mantissa so it corresponds to 2^(-14): */
+        if (Exponent >= -14) {
+            /* (3a) normal number: rounding may have carried into the next power of two */
 
-        else if (Exponent == -15) {
-            Mantissa >>= 1;
+            if (Kept & 0x800ul) {
+                Kept >>= 1;
+                Exponent++;
+            }
+            if (Exponent > 15) {
+                return False;
+            }
+            Kept = (Kept & 0x3fful) | ((LongWord)(Exponent + 15) << 10);
         }
 
-        /* (3c) add bias to exponent */
+        /* (3b) denormal number: exponent field is zero; a mantissa rounded up to 0x400 is
+           the smallest normal number and needs no special treatment */
 
-        Exponent += 15;
-
-        /* (3d) store result */
-
-        pDest[1 ^ !!NeedsBig]
-                = (Sign << 7) | ((Exponent << 2) & 0x7c) | ((Mantissa >> 26) & 3);
-        pDest[0 ^ !!NeedsBig] = (Mantissa >> 18) & 0xff;
+        pDest[1 ^ !!NeedsBig] = (Sign << 7) | ((Kept >> 8) & 0x7f);
+        pDest[0 ^ !!NeedsBig] = Kept & 0xff;
 
         return True;
     }
